@@ -42,7 +42,7 @@ func checkC09(c *Ctx) {
 	r.Rule("C09.h", "the case list of a union is handed on complete and in order by every pass that rebuilds it (element-wise image of the old list): the set exaustiveCheck requires is the set the definition declares", 1)
 	checkListOrderOf(c, "C09.h", f, func(key string) bool { return strings.HasSuffix(key, ".Cases") }, 1)
 	checkRelevantReviewedForms(c, f, "C09.z", "a union-match primitive (the exhaustiveness check, the rule constructors and parsers, case lookup, the match emitter)",
-		primSet("exaustiveCheck", "New_UnionMatchRules_UCaseOnly", "New_UnionMatchRules_UCaseWD", "lookupCase", "utCases", "parseUnionMatchRule", "parseUnionMatchRules", "parseURules", "parseDefaultMatchRule", "isUnionMatchRules", "parseMatchRules", "umrToGoReturn", "umrToCase", "umpToCaseHeader"), 10)
+		primSet("exaustiveCheck", "New_UnionMatchRules_UCaseOnly", "New_UnionMatchRules_UCaseWD", "lookupCase", "utCases", "parseUnionMatchRule", "parseUnionMatchRules", "parseURules", "parseDefaultMatchRule", "isUnionMatchRules", "parseMatchRules", "umrToGoReturn", "umrToCase", "umpToCaseHeader"), 8)
 	c.expectNF(f, "C09.g", "psPanic", []string{"seq[tkzPanic(p0.tkz, p1)]"}, "psPanic hands the message on unchanged")
 	c.expectNF(f, "C09.g", "PanicNow", []string{"seq[tkzPanic(var:lastTkz, p0)]"}, "PanicNow hands the message on unchanged")
 	c.expectNF(f, "C09.g", "tkzPanic", []string{`seq[frt.Panicf2(<msg>, frt.Sprintf2(<str>, tkzToFPosInfo(p0).LineNum, tkzToFPosInfo(p0).ColNum), p1)]`}, "the position is prefixed, the message follows unchanged")
